@@ -88,7 +88,14 @@ pub enum Step {
         big: usize,
     },
     Nested { who: usize, row: usize, room: usize, dt: i64 },
-    Update { who: usize, row: usize, dt: i64 },
+    Update {
+        who: usize,
+        row: usize,
+        dt: i64,
+        /// length of the new text when the row is meant to end close to the size limit (0: an ordinary text)
+        #[serde(default)]
+        big: usize,
+    },
     Move { who: usize, row: usize, to: usize, dt: i64 },
     Delete { who: usize, row: usize, dt: i64 },
     RefAdd { who: usize, row: usize, target: usize, dt: i64 },
@@ -324,7 +331,10 @@ pub fn generate(seed: u64, property: &str, thorough: bool) -> Trace {
                 steps.push(Step::Nested { who, row: nrows, room, dt });
                 nrows += 1;
             }
-            7 if nrows > 0 => steps.push(Step::Update { who, row: rw.usize(nrows), dt }),
+            7 if nrows > 0 => {
+                let big = if rw.chance(1, 12) { 1650 + rw.usize(460) } else { 0 };
+                steps.push(Step::Update { who, row: rw.usize(nrows), dt, big })
+            }
             8 if nrows > 0 && n_rooms > 1 => steps.push(Step::Move { who, row: rw.usize(nrows), to: rw.usize(n_rooms), dt }),
             9 if nrows > 0 => steps.push(Step::Delete { who, row: rw.usize(nrows), dt }),
             10 if nrows > 1 => steps.push(Step::RefAdd { who, row: rw.usize(nrows), target: rw.usize(nrows), dt }),
@@ -379,7 +389,7 @@ pub fn directed(property: &str) -> Vec<Trace> {
                     Step::NewRoom { who: 0, room: 0, admins: vec![0], groups: vec![own_only(vec![1])], dt: 20 },
                     Step::Create { who: 1, row: 0, room: 0, ent: 0, dt: DAY_MS, big: 0 },
                     Step::AddRight { who: 0, room: 0, group: 0, right: RightSpec { ent: 0, own: false, all: false }, dt: 1000, nb: false },
-                    Step::Update { who: 1, row: 0, dt: DAY_MS },
+                    Step::Update { who: 1, row: 0, dt: DAY_MS, big: 0 },
                 ],
             ));
             out.push(mk(
@@ -404,7 +414,7 @@ pub fn directed(property: &str) -> Vec<Trace> {
                     Step::Create { who: 0, row: 0, room: 0, ent: 0, dt: DAY_MS, big: 0 },
                     Step::Create { who: 1, row: 1, room: 0, ent: 0, dt: DAY_MS, big: 0 },
                     Step::RefAdd { who: 0, row: 0, target: 1, dt: DAY_MS },
-                    Step::Update { who: 1, row: 0, dt: DAY_MS },
+                    Step::Update { who: 1, row: 0, dt: DAY_MS, big: 0 },
                     Step::RefDel { who: 1, row: 0, target: 1, dt: DAY_MS },
                 ],
             ));
@@ -508,7 +518,7 @@ pub fn directed(property: &str) -> Vec<Trace> {
                     Step::RefAdd { who: 0, row: 0, target: 1, dt: 1000 },
                     Step::RefDel { who: 1, row: 0, target: 1, dt: DAY_MS },
                     Step::RefAdd { who: 1, row: 0, target: 1, dt: 1000 },
-                    Step::Update { who: 1, row: 1, dt: DAY_MS },
+                    Step::Update { who: 1, row: 1, dt: DAY_MS, big: 0 },
                     Step::Delete { who: 1, row: 1, dt: DAY_MS },
                 ],
             ));
@@ -994,7 +1004,7 @@ fn exec_step(c: &mut Ctx, st: &Step) -> Result<(), String> {
                 after_data_op(c, who, true)?;
             }
         }
-        Step::Update { who, row, dt } => {
+        Step::Update { who, row, dt, big } => {
             let who = *who % n;
             let Some((id, ent, room, author)) = row_info(c, *row) else { return Ok(()) };
             let Some(rr) = c.rooms.get(room).cloned().flatten() else { return Ok(()) };
@@ -1004,8 +1014,13 @@ fn exec_step(c: &mut Ctx, st: &Step) -> Result<(), String> {
             let own = author == who;
             let exp = rr.can(who, ENTS[ent], date, !own);
             let q = format!("mutate {{ {}{{ id:$id name:$n }} }}", ENTS[ent]);
-            let p = serde_json::json!({"id": id, "n": format!("row{row} v{}", c.ops)}).to_string();
-            let res = attempt(c, who, if own { "update-own" } else { "update-foreign" }, Some(exp), if own { "no-own-rows-right" } else { "no-all-rows-right" }, false, &q, Some(p))?;
+            let text = if *big > 0 { format!("row{row} {}", "y".repeat(*big)) } else { format!("row{row} v{}", c.ops) };
+            let p = serde_json::json!({"id": id, "n": text}).to_string();
+            let expectation = if *big > 0 { None } else { Some(exp) };
+            if *big > 0 {
+                c.w.fault("row_close_to_the_size_limit");
+            }
+            let res = attempt(c, who, if *big > 0 { "update-close-to-the-size-limit" } else if own { "update-own" } else { "update-foreign" }, expectation, if own { "no-own-rows-right" } else { "no-all-rows-right" }, false, &q, Some(p))?;
             if res.is_ok() {
                 c.rows[*row].author = who;
                 after_data_op(c, who, true)?;
